@@ -47,6 +47,19 @@ theorem C10_lossless (pats : List Pat) (text : List Char) (toks : List Token)
     FileCover pats (splitLines text) 1 ⟨[], []⟩ toks :=
   tokLines_cover pats _ _ _ _ h
 
+/-- Non-vacuity (a test, by evaluation): the real table tokenizes a two-line text with an
+Indent, a skipped gap, a comment and a trailing Dedent; `ReservedSyms` holds for it
+(`C10_table_reserved_syms`). -/
+example : tokenize tokTable.pats "a:\n  0x_1 # c\n".toList =
+    .ok [⟨"SnakeWord", ['a'], 1, 1, 1, 2⟩, ⟨"\":\"", [':'], 1, 2, 1, 3⟩, newlineTok 1 2,
+      ⟨"Indent", [' ', ' '], 2, 1, 2, 3⟩, ⟨"Number", "0x_1".toList, 2, 3, 2, 7⟩,
+      ⟨"Comment", "# c".toList, 2, 8, 2, 11⟩, newlineTok 2 10, dedentTok 3 1] := by decide +kernel
+
+/-- … and errors are reachable: bad indentation and an unrecognized character. -/
+example : tokenize tokTable.pats "a\n  b\n c".toList = .err "Bad indentation" 3 1 3 2 ∧
+    tokenize tokTable.pats "a ~".toList = .err "Unrecognized token" 1 3 1 4 := by
+  constructor <;> decide +kernel
+
 /-- What a cover of one line means, spelled out: the pieces concatenate to the line;
 every token sits on that line, is non-empty, its text is the slice
 `line[sc-1 : ec-1]`, `ec - sc = len(text)`, it ends inside the line; tokens are
@@ -177,5 +190,106 @@ theorem C10_table_reserved_syms : ReservedSyms tokTable.pats := by
   have := List.all_eq_true.mp this p hp
   simp only [Bool.and_eq_true, bne_iff_ne, ne_eq] at this
   exact ⟨this.1.1, this.1.2, this.2⟩
+
+/-- Text skipped between tokens (a `Covers` gap) was matched by the one pattern without a
+symbol, `\\s+`: it consists of `str.isspace` characters only. -/
+theorem C10_gaps_are_whitespace (s : List Char) (n : Nat) (h : IsBest tokTable.pats s n none) :
+    (s.take n).all isSpaceChar = true :=
+  gap_is_whitespace h
+
+/-! ## Classification of names and numbers (table-specific)
+
+`WordRun w rest`: the tokenizer stands at the start of `w ++ rest`, `w` is a non-empty run
+of `[A-Za-z0-9_$]` and `rest` does not continue it.  `bestMatch … 0 none` is the pattern
+loop of `_tokenize_line` at that position; its result is (token length, symbol). -/
+
+open Emboss.Tok.Class
+
+/-- The token is the whole run, whatever it is. -/
+theorem C10_word_run (w rest : List Char) (h : WordRun w rest) :
+    ∃ sy, bestMatch tokTable.pats (w ++ rest) 0 none = some (w.length, sy) ∧
+      IsBest tokTable.pats (w ++ rest) w.length sy :=
+  word_run_best h
+
+/-- **Names.**  A run starting with a letter, `_` or `$` is: the keyword / `$`-word literal
+it equals; else BadWord if it has a reserved prefix (`EmbossReserved…`, `emboss_reserved…`,
+`EMBOSS_RESERVED…` in the matching case style); else BooleanConstant for `true`/`false`;
+else SnakeWord / ShoutyWord / CamelWord exactly per the reference's name rules
+(`Class.isSnake`, `isShouty`, `isCamel`); else BadWord. -/
+theorem C10_word_classes (w rest : List Char) (h : WordRun w rest)
+    (hd : ∀ x t, w = x :: t → isDigit x = false) :
+    bestMatch tokTable.pats (w ++ rest) 0 none = some (w.length, some (classifyWord w)) :=
+  bestMatch_word h hd
+
+example : WordRun "ab_1".toList " x".toList ∧ classifyWord "ab_1".toList = "SnakeWord" ∧
+    classifyWord "AB_1".toList = "ShoutyWord" ∧ classifyWord "Ab1".toList = "CamelWord" ∧
+    classifyWord "A1".toList = "BadWord" ∧ classifyWord "struct".toList = "\"struct\"" ∧
+    classifyWord "structure".toList = "SnakeWord" ∧ classifyWord "emboss_reserved_x".toList = "BadWord" ∧
+    classifyWord "true".toList = "BooleanConstant" ∧ classifyWord "$max".toList = "\"$max\"" ∧
+    classifyWord "a$".toList = "BadWord" :=
+  ⟨⟨by decide, by decide, by intro c hc; cases hc; decide⟩, by decide, by decide, by decide, by decide,
+    by decide, by decide, by decide, by decide, by decide, by decide⟩
+
+/-- **Numbers.**  A run starting with a digit is Number iff it is a numeric constant in a
+form the reference documents (`IsNumberDoc`: decimal / `0x` / `0b`, without separators or
+with 3-digit resp. consistent 4- or 8-digit groups) or in the one extra form the
+tokenizer accepts (`IsNumberRadixUnderscore`: a `_` directly after `0x`/`0b`); otherwise
+it is BadNumber if it has the catch-all number shape, else BadWord.
+
+Full statement wanted by the property (`Number ↔ IsNumberDoc w`) is *false* for the code:
+see `C10_number_classes_counterexample`; hence `_partial`, the excluded inputs being
+exactly `IsNumberRadixUnderscore`. -/
+theorem C10_number_classes_partial (w rest : List Char) (h : WordRun w rest) (x : Char) (t : List Char)
+    (hw : w = x :: t) (hx : isDigit x = true) :
+    ∃ sym, bestMatch tokTable.pats (w ++ rest) 0 none = some (w.length, some sym) ∧
+      ((IsNumberDoc w ∨ IsNumberRadixUnderscore w) → sym = "Number") ∧
+      (¬ (IsNumberDoc w ∨ IsNumberRadixUnderscore w) → isBadNumberShape w = true → sym = "BadNumber") ∧
+      (¬ (IsNumberDoc w ∨ IsNumberRadixUnderscore w) → isBadNumberShape w = false → sym = "BadWord") :=
+  bestMatch_digit h x t hw hx
+
+theorem not_grouped_us (dig : Char → Bool) (hd : dig '_' = false) (a b : Nat) (t : List Char) :
+    ¬ Grouped dig a b ('_' :: t) := by
+  rintro ⟨g0, gs, hb, h1, _, h3, _⟩
+  cases g0 with
+  | nil => simp at h1
+  | cons y g0' =>
+    simp only [List.cons_append, List.cons.injEq] at hb
+    simp only [List.all_cons, Bool.and_eq_true] at h3
+    rw [← hb.1, hd] at h3
+    exact absurd h3.1 (by simp)
+
+/-- `0x_1` is tokenized as a Number although it is not a numeric constant of
+doc/language-reference.md (a `_` that is not a 4- or 8-digit separator). -/
+theorem C10_number_classes_counterexample :
+    bestMatch tokTable.pats "0x_1".toList 0 none = some (4, some "Number") ∧
+      ¬ IsNumberDoc "0x_1".toList := by
+  refine ⟨by decide +kernel, ?_⟩
+  have hrun : WordRun "0x_1".toList [] := ⟨by decide, by decide, by intro c hc; cases hc⟩
+  rintro ((hp | hg) | ⟨body, hw, hb⟩ | ⟨body, hw, _⟩)
+  · revert hp; decide
+  · have := (full_decGrouped hrun).mpr hg
+    revert this; decide +kernel
+  · have : body = ['_', '1'] := by
+      have : "0x_1".toList = ['0', 'x', '_', '1'] := by decide
+      rw [this] at hw; simp only [List.cons.injEq, true_and] at hw; exact hw.symm
+    subst this
+    rcases hb with hp | hg | hg
+    · revert hp; decide
+    · exact not_grouped_us _ (by decide) _ _ _ hg
+    · exact not_grouped_us _ (by decide) _ _ _ hg
+  · have : "0x_1".toList = ['0', 'x', '_', '1'] := by decide
+    rw [this] at hw; simp only [List.cons.injEq, true_and] at hw
+    exact absurd hw.1 (by decide)
+
+/-- Non-vacuity of `C10_number_classes_partial`: documented forms and rejected ones. -/
+example : IsNumberDoc "1_000".toList ∧ IsNumberDoc "0x1234_5678".toList ∧ IsNumberDoc "012".toList ∧
+    IsNumberRadixUnderscore "0b_0000_0000".toList ∧ isBadNumberShape "1000_000".toList = true := by
+  refine ⟨.inl (.inr ⟨['1'], [['0', '0', '0']], by decide, by decide, by decide, by decide, by decide⟩),
+    .inr (.inl ⟨"1234_5678".toList, by decide, .inr (.inl
+      ⟨['1', '2', '3', '4'], [['5', '6', '7', '8']], by decide, by decide, by decide, by decide, by decide⟩)⟩),
+    .inl (.inl (by decide)),
+    .inr ⟨"0000_0000".toList, by decide, .inl
+      ⟨['0', '0', '0', '0'], [['0', '0', '0', '0']], by decide, by decide, by decide, by decide, by decide⟩⟩,
+    by decide⟩
 
 end Emboss.Tok
